@@ -102,6 +102,8 @@ def make_image(doc, rng):
     # (DeviceGray / ICCBased images cannot be written by the typed layer: ColorSpace::to_primitive is unimplemented for
     #  them and the import ends in an error, which the property allows; they are generated rarely)
     cs, ncomp = rng.choice([("DeviceRGB", 3), ("DeviceRGB", 3), ("DeviceCMYK", 4)] + ([("DeviceGray", 1)] if rng.random() < 0.1 else []))
+    if cs == "DeviceGray":
+        doc.features.add("typed-writer-refuses")
     d = {"Type": Name("XObject"), "Subtype": Name("Image"), "Width": w, "Height": h, "ColorSpace": Name(cs), "BitsPerComponent": 8,
          "ImageMask": False, "Interpolate": False}     # the typed layer writes these defaults; the source states them
     if rng.random() < 0.3:
@@ -264,12 +266,12 @@ def gen_doc(rng, npages=None, cyc=None, tier="quick", typed_font=False, unsuppor
                 doc.features.add("unused-resource")
             extra_ops = []
             if unsupported:
-                kind = rng.choice(["cs", "pattern", "shading", "properties"])
+                kind = rng.choice(["cs", "pattern", "properties"])      # (`sh` is dropped by the content parser: C08-c)
                 doc.features.add("unsupported:" + kind)
                 if kind == "cs":
                     icc = doc.add(enc_stream(rng, {"N": 3}, rnd_bytes(rng, 24), "flate"))
                     res["ColorSpace"] = {"CS0": [Name("ICCBased"), icc]}
-                    extra_ops.append(b"/CS0 cs 0.1 0.2 0.3 sc")
+                    extra_ops.append(b"/CS0 cs 0.1 0.2 0.3 scn")
                 elif kind == "pattern":
                     pres = doc.add({})
                     pat = doc.add(Stream({"Type": Name("Pattern"), "PatternType": 1, "PaintType": 1, "TilingType": 1, "BBox": [0, 0, 5, 5],
